@@ -587,6 +587,25 @@ theorem deletePt_not_mem (ps : List (Pt Int)) (x : Pt Int) (h : ∀ p ∈ ps, pt
     exact absurd this (by simp)
   simp only [deletePt, eraseSamePt_none ps x hx, deletePtTol_not_mem ps x h]
 
+theorem deletePtTol_first (pre post : List (Pt Int)) (p x : Pt Int) (hpre : ∀ q ∈ pre, ptEq q x = false)
+    (hp : ptEq p x = true) : deletePtTol (pre ++ p :: post) x = .ok (pre ++ post) := by
+  induction pre with
+  | nil => simp [deletePtTol, hp]
+  | cons q qs ih =>
+    simp only [List.cons_append, deletePtTol, hpre q (by simp), Bool.false_eq_true, if_false,
+      ih (fun q' hq' => hpre q' (List.mem_cons_of_mem _ hq'))]
+    rfl
+
+/-- **the third case of `deleteEntry`** (the one `DelOk` leaves out of `pirun_labelAt`): the argument is not a member
+but some member is equal to it under the tolerant `Point.__eq__` — the FIRST such member is removed, nothing is raised
+(replayed: `PointTier('P',[(5.0,'a'),(7,'b')],0,10).deleteEntry(Point(5.0000000001,'a'))` leaves `[(7,'b')]`) -/
+theorem pdelete_tolerant (t : PTier Int) (x : Pt Int) (hx : x ∉ t.ps) (pre post : List (Pt Int)) (p : Pt Int)
+    (hps : t.ps = pre ++ p :: post) (hpre : ∀ q ∈ pre, ptEq q x = false) (hp : ptEq p x = true) :
+    t.deleteEntry x = .ok { t with ps := pre ++ post } := by
+  simp only [PTier.deleteEntry, deletePt, eraseSamePt_none t.ps x hx]
+  rw [hps, deletePtTol_first pre post p x hpre hp]
+  rfl
+
 /-- **deleteEntry**: a member is removed — exactly one occurrence of exactly that point, whatever else in the tier is
 close to it — and name and span stay; an argument that no point equals even under the tolerant `Point.__eq__` raises
 ValueError (and nothing else ever makes it raise); the tier stays well-formed -/
